@@ -2,8 +2,9 @@
   Proofs.C15Wif — WIF private-key strings (lib/btc/wallet.go DecodePrivateAddr / PrivateAddr.String):
   C14's model (Model/HD.lean) factors through the string-level codec of Model/AddrWif.lean, and that
   codec is a bijection between accepted strings with a canonical flag byte and (version, 32-byte key,
-  compressed) triples. The flag byte of a 38-byte payload is NOT checked by the code (anything but 01
-  means "uncompressed"): `flag_unchecked`.
+  compressed) triples. Since the `fix:` commit for finding `wif-flag-byte-unchecked` the flag byte of a 38-byte
+  payload IS checked (anything but 01 is refused): `flag_refused`; hence every accepted string is canonical
+  (`encode_decode` needs no side condition) and the decoder is injective (`decode_inj`).
 -/
 import GocoinV.Model.AddrWif
 import GocoinV.Proofs.C15Base58b
@@ -21,6 +22,7 @@ theorem decodePrivateAddr_factors (C : WalletCrypto) (s : Bytes) :
   | none => rfl
   | some pkb =>
     simp only
+    split; · rfl
     split; · rfl
     split; · rfl
     split; · rfl
@@ -53,7 +55,8 @@ theorem privAddrString_factors (C : WalletCrypto) (key : Bytes) (ver : UInt8) (c
 theorem decode_of_body (C : WalletCrypto) (hlen : ∀ b, (C.shaHash b).length = 32) (buf : Bytes)
     (hb : buf.length = 33 ∨ buf.length = 34) :
     decode C (Base58.encode (buf ++ (C.shaHash buf).take 4)) =
-      .ok (buf.headD 0, (buf.drop 1).take 32, decide (buf.length = 34 ∧ buf.getD 33 0 = 1)) := by
+      if buf.length = 34 ∧ buf.getD 33 0 ≠ 1 then .error .flag
+      else .ok (buf.headD 0, (buf.drop 1).take 32, decide (buf.length = 34 ∧ buf.getD 33 0 = 1)) := by
   have hcs : ((C.shaHash buf).take 4).length = 4 := by simp [hlen]
   generalize hcsd : (C.shaHash buf).take 4 = cs at hcs
   have hne : buf ++ cs ≠ [] := by
@@ -79,6 +82,13 @@ theorem decode_of_body (C : WalletCrypto) (hlen : ∀ b, (C.shaHash b).length = 
   generalize hp : buf ++ cs = pkb at hl ht hd hh hk hg
   simp only [ht, hd, hcsd, hh, hk, ne_eq, not_true_eq_false, ↓reduceIte]
   rw [if_neg (by omega), if_neg (by omega)]
+  have e1 : (pkb.length = 38 ∧ ¬ pkb.getD 33 0 = 1) ↔ (buf.length = 34 ∧ ¬ buf.getD 33 0 = 1) := by
+    constructor
+    · intro h
+      have h34 : buf.length = 34 := by omega
+      exact ⟨h34, (hg h34) ▸ h.2⟩
+    · intro h
+      exact ⟨by omega, (hg h.1).symm ▸ h.2⟩
   have e : decide (pkb.length = 38 ∧ pkb.getD 33 0 = 1) = decide (buf.length = 34 ∧ buf.getD 33 0 = 1) := by
     apply decide_eq_decide.mpr
     constructor
@@ -88,6 +98,9 @@ theorem decode_of_body (C : WalletCrypto) (hlen : ∀ b, (C.shaHash b).length = 
     · intro h
       exact ⟨by omega, (hg h.1).symm ▸ h.2⟩
   rw [e]
+  by_cases hc : buf.length = 34 ∧ ¬ buf.getD 33 0 = 1
+  · rw [if_pos (e1.mpr hc), if_pos hc]
+  · rw [if_neg (fun h => hc (e1.mp h)), if_neg hc]
 
 /-- WIF round trip at the string level: decode ∘ encode = id on (version, 32-byte key, compressed) -/
 theorem decode_encode (C : WalletCrypto) (hlen : ∀ b, (C.shaHash b).length = 32) (ver : UInt8) (key : Bytes)
@@ -117,9 +130,10 @@ theorem decode_encode (C : WalletCrypto) (hlen : ∀ b, (C.shaHash b).length = 3
 /-- acceptance stated outright -/
 theorem accept_iff (C : WalletCrypto) (s : Bytes) (v : UInt8) (k : Bytes) (c : Bool) :
     decode C s = .ok (v, k, c) ↔
-      ∃ pkb, Base58.decode s = some pkb ∧ (pkb.length = 37 ∨ pkb.length = 38) ∧
+      ∃ pkb, Base58.decode s = some pkb ∧
+        ((pkb.length = 37 ∧ c = false) ∨ (pkb.length = 38 ∧ pkb.getD 33 0 = 1 ∧ c = true)) ∧
         (C.shaHash (pkb.take (pkb.length - 4))).take 4 = pkb.drop (pkb.length - 4) ∧
-        v = pkb.headD 0 ∧ k = (pkb.drop 1).take 32 ∧ c = decide (pkb.length = 38 ∧ pkb.getD 33 0 = 1) := by
+        v = pkb.headD 0 ∧ k = (pkb.drop 1).take 32 := by
   unfold decode
   cases hd : Base58.decode s with
   | none => simp
@@ -133,41 +147,57 @@ theorem accept_iff (C : WalletCrypto) (s : Bytes) (v : UInt8) (k : Bytes) (c : B
       rename_i h2
       split at h; · simp at h
       rename_i h3
+      split at h; · simp at h
+      rename_i h4
       simp only [Except.ok.injEq, Prod.mk.injEq] at h
-      refine ⟨by omega, by simpa using h3, h.1.symm, h.2.1.symm, h.2.2.symm⟩
-    · rintro ⟨hl, hc, rfl, rfl, rfl⟩
+      refine ⟨?_, by simpa using h3, h.1.symm, h.2.1.symm⟩
+      by_cases h38 : pkb.length = 38
+      · have hf : pkb.getD 33 0 = 1 := by
+          apply Classical.byContradiction
+          intro hn
+          exact h4 ⟨h38, hn⟩
+        exact Or.inr ⟨h38, hf, h.2.2.symm.trans (decide_eq_true ⟨h38, hf⟩)⟩
+      · exact Or.inl ⟨by omega, h.2.2.symm.trans (decide_eq_false (fun hh => h38 hh.1))⟩
+    · rintro ⟨hl, hc, rfl, rfl⟩
       have h1 : ¬ pkb.length < 37 := by omega
       have h2 : ¬ pkb.length > 38 := by omega
-      simp [h1, h2, hc]
+      have h3 : ¬ (C.shaHash (pkb.take (pkb.length - 4))).take 4 ≠ pkb.drop (pkb.length - 4) := by simp [hc]
+      rw [if_neg h1, if_neg h2, if_neg h3]
+      rcases hl with ⟨hl, rfl⟩ | ⟨hl, hf, rfl⟩
+      · have hn : ¬ (pkb.length = 38 ∧ pkb.getD 33 0 = 1) := fun hh => by omega
+        rw [if_neg (by omega), decide_eq_false hn]
+      · rw [if_neg (fun h => h.2 hf), decide_eq_true (⟨hl, hf⟩ : pkb.length = 38 ∧ pkb.getD 33 0 = 1)]
 
-/-- an accepted string whose flag byte is canonical is exactly the `String()` of the triple it decodes to -/
-theorem encode_decode (C : WalletCrypto) (s pkb : Bytes) (v : UInt8) (k : Bytes) (c : Bool)
-    (hd : Base58.decode s = some pkb) (hcan : canonicalFlag pkb = true) (h : decode C s = .ok (v, k, c)) :
-    encode C v k c = s ∧ k.length = 32 := by
-  obtain ⟨pkb', hd', hl, hc, rfl, rfl, rfl⟩ := (accept_iff C s v k c).mp h
+/-- the payload of an accepted string satisfies the flag rule of Bitcoin Core's `DecodeSecret` -/
+theorem accepted_canonical (C : WalletCrypto) (s pkb : Bytes) (v : UInt8) (k : Bytes) (c : Bool)
+    (hd : Base58.decode s = some pkb) (h : decode C s = .ok (v, k, c)) : canonicalFlag pkb = true := by
+  obtain ⟨pkb', hd', hl, _⟩ := (accept_iff C s v k c).mp h
   rw [hd] at hd'
   obtain rfl := Option.some.inj hd'
-  have hkl : ((pkb.drop 1).take 32).length = 32 := by simp; omega
+  unfold canonicalFlag
+  rcases hl with ⟨hl, _⟩ | ⟨_, hf, _⟩
+  · simp [hl]
+  · rw [List.getD_eq_getElem?_getD] at hf
+    simp [hf]
+
+/-- every accepted string is exactly the `String()` of the triple it decodes to -/
+theorem encode_decode (C : WalletCrypto) (s : Bytes) (v : UInt8) (k : Bytes) (c : Bool)
+    (h : decode C s = .ok (v, k, c)) : encode C v k c = s ∧ k.length = 32 := by
+  obtain ⟨pkb, hd, hl, hc, rfl, rfl⟩ := (accept_iff C s v k c).mp h
+  have hkl : ((pkb.drop 1).take 32).length = 32 := by
+    rcases hl with ⟨hl, _⟩ | ⟨hl, _⟩ <;> (simp; omega)
   refine ⟨?_, hkl⟩
   have hsplit : pkb = pkb.take (pkb.length - 4) ++ pkb.drop (pkb.length - 4) := (List.take_append_drop _ _).symm
-  have hbody : payload (pkb.headD 0) ((pkb.drop 1).take 32) (decide (pkb.length = 38 ∧ pkb.getD 33 0 = 1)) =
-      pkb.take (pkb.length - 4) := by
+  have hbody : payload (pkb.headD 0) ((pkb.drop 1).take 32) c = pkb.take (pkb.length - 4) := by
     cases pkb with
     | nil => simp at hl
     | cons x t =>
       simp only [List.headD_cons, List.drop_succ_cons, List.drop_zero, List.length_cons] at hl ⊢
-      rcases hl with hl | hl
-      · have hn : ¬ (t.length + 1 = 38) := by omega
-        have e : t.length + 1 - 4 = 32 + 1 := by omega
-        simp only [payload, hn, false_and, decide_false, Bool.false_eq_true, ↓reduceIte, e, List.take_succ_cons]
-      · have hflag : (x :: t).getD 33 0 = 1 := by
-          unfold canonicalFlag at hcan
-          simp only [List.length_cons, decide_eq_true_eq] at hcan
-          rcases hcan with h | h
-          · omega
-          · exact h
-        have e : t.length + 1 - 4 = 33 + 1 := by omega
-        simp only [payload, hl, hflag, and_self, decide_true, ↓reduceIte, List.take_succ_cons, List.cons.injEq, true_and]
+      rcases hl with ⟨hl, rfl⟩ | ⟨hl, hflag, rfl⟩
+      · have e : t.length + 1 - 4 = 32 + 1 := by omega
+        simp only [payload, Bool.false_eq_true, ↓reduceIte, e, List.take_succ_cons]
+      · have e : t.length + 1 - 4 = 33 + 1 := by omega
+        simp only [payload, ↓reduceIte, e, List.take_succ_cons, List.cons.injEq, true_and]
         -- t.take 33 = t.take 32 ++ [1]
         have h32 : t.getD 32 0 = 1 := by simpa using hflag
         have hlt : 32 < t.length := by omega
@@ -183,37 +213,26 @@ theorem encode_decode (C : WalletCrypto) (s pkb : Bytes) (v : UInt8) (k : Bytes)
   rw [hbody, hc, ← hsplit]
   exact Base58.encode_decode s pkb hd
 
-/-- THE CODE DOES NOT CHECK THE FLAG BYTE: for every version, 32-byte key and flag byte other than 01, the
-    Base58Check string of version ‖ key ‖ flag (38-byte payload) is accepted — as an UNCOMPRESSED key — and
-    `String()` of the result is a different string (the 37-byte form). -/
-theorem flag_unchecked (C : WalletCrypto) (hlen : ∀ b, (C.shaHash b).length = 32) (ver flag : UInt8) (key : Bytes)
+/-- the decoder is injective: two strings that denote the same (version, key, compressed) are one string -/
+theorem decode_inj (C : WalletCrypto) (s s' : Bytes) (v : UInt8) (k : Bytes) (c : Bool)
+    (h : decode C s = .ok (v, k, c)) (h' : decode C s' = .ok (v, k, c)) : s = s' :=
+  (encode_decode C s v k c h).1.symm.trans (encode_decode C s' v k c h').1
+
+/-- THE FLAG BYTE IS CHECKED (regression statement for finding `wif-flag-byte-unchecked`): for every version,
+    32-byte key and flag byte other than 01, the Base58Check string of version ‖ key ‖ flag (38-byte payload,
+    correct checksum) is refused with the flag error. -/
+theorem flag_refused (C : WalletCrypto) (hlen : ∀ b, (C.shaHash b).length = 32) (ver flag : UInt8) (key : Bytes)
     (hk : key.length = 32) (hf : flag ≠ 1) :
     let buf := ver :: (key ++ [flag])
-    let s := Base58.encode (buf ++ (C.shaHash buf).take 4)
-    decode C s = .ok (ver, key, false) ∧ encode C ver key false ≠ s := by
-  intro buf s
+    decode C (Base58.encode (buf ++ (C.shaHash buf).take 4)) = .error .flag := by
+  intro buf
   have hbl : buf.length = 34 := by simp [buf, hk]
-  constructor
-  · have := decode_of_body C hlen buf (Or.inr hbl)
-    simp only [s]
-    rw [this]
-    have h33 : buf.getD 33 0 = flag := by
-      simp only [buf, List.getD_cons_succ]
-      rw [List.getD_eq_getElem?_getD, List.getElem?_append_right (by omega)]
-      simp [hk]
-    simp only [h33, hf, and_false, decide_false]
-    simp only [buf, List.headD_cons, List.drop_succ_cons, List.drop_zero]
-    rw [List.take_left' hk]
-  · intro he
-    have h1 := decode_encode C hlen ver key false hk
-    rw [he] at h1
-    have h2 : Base58.decode s = some (buf ++ (C.shaHash buf).take 4) :=
-      Base58.decode_encode _ (by simp [buf])
-    have h3 : Base58.decode (encode C ver key false) =
-        some (payload ver key false ++ (C.shaHash (payload ver key false)).take 4) :=
-      Base58.decode_encode _ (by simp [payload])
-    rw [he, h2] at h3
-    have := congrArg List.length (Option.some.inj h3)
-    simp [buf, payload, hk, hlen] at this
+  have := decode_of_body C hlen buf (Or.inr hbl)
+  rw [this]
+  have h33 : buf.getD 33 0 = flag := by
+    simp only [buf, List.getD_cons_succ]
+    rw [List.getD_eq_getElem?_getD, List.getElem?_append_right (by omega)]
+    simp [hk]
+  rw [if_pos ⟨hbl, by rw [h33]; exact hf⟩]
 
 end GocoinV.AddrWif
